@@ -1,17 +1,846 @@
-"""Policy.tla table checks (G binding) - filled in below."""
+"""Policy.tla decision tables bound to the real functions (binding G).
+
+For every table TLC enumerates the bounded domain of spec/Policy.tla (one state per row), checks the property clauses as
+invariants over the rows and prints every row together with the transcription's outputs as one JSON line
+(`Dump == PrintT(ToJson(Out))`).  Each printed row is then replayed into the real SDK function and compared:
+
+  completion_tables  [C09]  ExecutionCounters.should_complete / is_complete / should_continue, BatchResult.from_items / from_dict
+  retry_tables       [C12]  create_retry_strategy (+ RetryPresets, + large attempt numbers), random.random pinned
+  wait_tables        [C13]  create_wait_strategy (+ large attempt numbers), random.random pinned
+  wrapper_tables     [C18]  CheckpointError.from_exception and the wrapper's except chain (real durable_execution wrapper,
+                            real threads, in-memory fake service client)
+
+A disagreement between the transcription and the real function is a violation `policy-model-mismatch`
+(`classification-mismatch` / `wrapper-outcome-mismatch` for the two C18 tables); a clause violated by the transcription itself
+is `policy-clause-<Invariant>`.
+"""
+from __future__ import annotations
+
+import contextlib
+import json
+import logging
+import math
+import os
+import random
+import re
+import sys
+import threading
+import time
+import types
+
+from lib.common import REPO
+from lib.tlcrun import MachineryError, require_ok, run_tlc
+
+SDK = "aws_durable_execution_sdk_python"
 
 
-def retry_tables(ctx):
-    pass
+# ---- plumbing ------------------------------------------------------------------------------------------------
+
+def _sdk_path():
+    src = os.path.join(REPO, "src")
+    if src not in sys.path:
+        sys.path.insert(0, src)
+    os.environ.setdefault("AWS_DEFAULT_REGION", "us-east-1")
 
 
-def wait_tables(ctx):
-    pass
+@contextlib.contextmanager
+def _real_sdk():
+    """The checks that call us have installed the detsched shims into the SDK modules; the tables exercise the pure
+    functions and the wrapper on real threads, so take the shims out for the duration and put them back afterwards."""
+    _sdk_path()
+    inst = sys.modules.get("harness.install")
+    was = bool(inst is not None and getattr(inst, "_installed", False))
+    if was:
+        inst.uninstall()
+    prev = logging.root.manager.disable
+    logging.disable(logging.CRITICAL)
+    try:
+        yield
+    finally:
+        logging.disable(prev)
+        if was:
+            inst.install(check_audit=False)
 
 
-def wrapper_tables(ctx):
-    pass
+def _parse_rows(res) -> list[dict]:
+    rows = []
+    for line in res.printed:
+        if not line.startswith('"'):
+            continue
+        try:
+            s = json.loads(line)
+            if isinstance(s, str) and s.startswith("{"):
+                rows.append(json.loads(s))
+        except ValueError:
+            # TLC's string printing is not exactly JSON for exotic characters; ours are plain
+            inner = line[1:-1].replace('\\"', '"').replace("\\\\", "\\")
+            rows.append(json.loads(inner))
+    return rows
+
+
+def _run_table(ctx, table: str, cfg: str, label: str) -> list[dict]:
+    res = run_tlc("Policy", cfg, f"policy-{ctx.pid.lower()}-{cfg[:-4]}", workers=1, timeout_s=600)
+    require_ok(res, label)
+    ctx.add_tlc(res, label, exhaustive=True)
+    rows = _parse_rows(res)
+    if res.ok:
+        keys = {json.dumps(r, sort_keys=True) for r in rows}
+        if len(keys) != res.distinct or len(rows) != res.distinct:
+            raise MachineryError(f"{cfg}: {len(rows)} rows printed ({len(keys)} distinct) but TLC found {res.distinct} states; "
+                                 f"see {res.out_path}")
+        if not rows:
+            raise MachineryError(f"{cfg}: empty table")
+    else:
+        ctx.violation("policy-clause-" + str(res.violated),
+                      f"the transcription of the {table} policy violates clause {res.violated} ({cfg}); offending row: {_bad_row(res)}",
+                      {"kind": "policy", "table": table, "cfg": cfg, "violated": res.violated, "row": _bad_row(res)})
+    return rows
+
+
+def _bad_row(res) -> dict | None:
+    """the row of an invariant violation (`row = [a |-> 1, ...]` after the Error line)"""
+    try:
+        txt = open(res.out_path, errors="replace").read()
+    except OSError:
+        return None
+    i = txt.find("Error: Invariant")
+    m = re.search(r"row = \[(.*?)\]\s*$", txt[i:] if i >= 0 else "", re.S | re.M)
+    if not m:
+        return None
+    out = {}
+    for part in re.split(r",\s*(?=\w+ \|->)", m.group(1).replace("\n", " ")):
+        k, _, v = part.partition("|->")
+        v = v.strip()
+        if re.fullmatch(r"-?\d+", v):
+            out[k.strip()] = int(v)
+        elif v in ("TRUE", "FALSE"):
+            out[k.strip()] = v == "TRUE"
+        else:
+            out[k.strip()] = v.strip('"')
+    return out
+
+
+def _note(ctx, table: str, **kw):
+    ctx.notes.setdefault("policy_tables", {})[table] = kw
+
+
+def _none(v):
+    return None if v == -1 else v
+
+
+def _rule(ctx, text: str):
+    if text not in (ctx.rule or ""):
+        ctx.rule = (ctx.rule + " | " if ctx.rule else "") + text
+
+
+# ---- (1) completion --------------------------------------------------------------------------------------------
+
+def _completion_real(row, float_pct=False, none_config=False, order=None):
+    """-> (should_complete, is_complete, should_continue, reason, reason_via_from_dict) of the real code"""
+    from aws_durable_execution_sdk_python.concurrency.models import (BatchItem, BatchItemStatus, BatchResult,
+                                                                     ExecutionCounters)
+    from aws_durable_execution_sdk_python.config import CompletionConfig
+    n, s, f = row["n"], row["s"], row["f"]
+    mn, tc, tp = _none(row["min"]), _none(row["tolc"]), _none(row["tolp"])
+    if float_pct and tp is not None:
+        tp = float(tp)
+    cfg = CompletionConfig(min_successful=mn, tolerated_failure_count=tc, tolerated_failure_percentage=tp)
+    # concurrency/executor.py: min_successful = self.completion_config.min_successful or len(self.executables)
+    counters = ExecutionCounters(n, cfg.min_successful or n, cfg.tolerated_failure_count, cfg.tolerated_failure_percentage)
+    seq = ["s"] * s + ["f"] * f
+    if order is not None:
+        order.shuffle(seq)
+    for x in seq:
+        counters.complete_task() if x == "s" else counters.fail_task()
+    st = [BatchItemStatus.SUCCEEDED] * s + [BatchItemStatus.FAILED] * f + [BatchItemStatus.STARTED] * (n - s - f)
+    if order is not None:
+        order.shuffle(st)
+    items = [BatchItem(i, status, result=(i if status is BatchItemStatus.SUCCEEDED else None)) for i, status in enumerate(st)]
+    use_cfg = None if none_config else cfg
+    br = BatchResult.from_items(items, use_cfg)
+    d = br.to_dict()
+    d.pop("completionReason")
+    br2 = BatchResult.from_dict(d, use_cfg)
+    return (counters.should_complete(), counters.is_complete(), counters.should_continue(),
+            br.completion_reason.value, br2.completion_reason.value)
 
 
 def completion_tables(ctx):
+    t0 = time.time()
+    _rule(ctx, "policy tables: one case = one row of the TLC-enumerated Policy.tla table replayed into the real function")
+    cfg = "Policy_completion_quick.cfg" if ctx.quick else "Policy_completion.cfg"
+    rows = _run_table(ctx, "completion", cfg, "Policy.tla completion table (ShouldComplete / Reason), clauses as invariants")
+    rng = random.Random(ctx.seed)
+    mism = known = 0
+    with _real_sdk():
+        for row in rows:
+            key = ("completion", row["n"], row["s"], row["f"], row["min"], row["tolc"], row["tolp"])
+            variants = [dict(), dict(float_pct=True), dict(order=rng)]
+            if row["min"] == -1 and row["tolc"] == -1 and row["tolp"] == -1:
+                variants.append(dict(none_config=True))
+            ctx.case(key, n=len(variants))
+            want = (row["should"], row["complete"], row["cont"], row["reason"], row["reason"])
+            for v in variants:
+                try:
+                    got = _completion_real(row, **v)
+                except Exception as e:  # noqa: BLE001
+                    got = ("raised", type(e).__name__, str(e)[:80])
+                if got != want:
+                    mism += 1
+                    vv = {k: (True if k == "order" else x) for k, x in v.items()}
+                    ctx.violation("policy-model-mismatch",
+                                  f"completion policy: real (should_complete, is_complete, should_continue, reason, replayed reason) = {got} "
+                                  f"but Policy.tla says {want} for n={row['n']} succeeded={row['s']} failed={row['f']} "
+                                  f"min_successful={_none(row['min'])} tolerated_failure_count={_none(row['tolc'])} "
+                                  f"tolerated_failure_percentage={_none(row['tolp'])} variant={vv}",
+                                  {"kind": "policy", "table": "completion", "row": row, "variant": vv, "real": list(got)})
+                    break
+            else:
+                if row["known"] and row["should"] and row["reason"] == "ALL_COMPLETED" and row["started"] > 0:
+                    known += 1
+                    ctx.violation("all-completed-with-started",
+                                  f"BatchResult.from_items reports ALL_COMPLETED with {row['started']} STARTED item(s): n={row['n']} "
+                                  f"succeeded={row['s']} failed={row['f']} min_successful={row['min']} and no tolerance "
+                                  f"(the counters decide completion by fail-fast, the classifier ignores it)",
+                                  {"kind": "policy", "table": "completion", "row": row})
+        # probe: the named deviation is reachable (the strict clause is violated by the transcription, and the real code agrees)
+        pres = run_tlc("Policy", "Policy_completion_probe.cfg", f"policy-{ctx.pid.lower()}-completion-probe", workers=1,
+                       timeout_s=300, coverage=False)
+        require_ok(pres, "completion probe")
+        ctx.add_tlc(pres, "probe: ReasonConsistentStrict (no KnownReason escape) is expected to be violated")
+        if pres.violated != "ReasonConsistentStrict":
+            raise MachineryError(f"completion probe: expected ReasonConsistentStrict to be violated, got {pres.violated} ({pres.out_path})")
+        prow = _bad_row(pres)
+        if not prow:
+            raise MachineryError(f"completion probe: cannot parse the violating row ({pres.out_path})")
+        preal = _completion_real(prow)
+        probe = {"row": prow, "real_should_complete": preal[0], "real_reason": preal[3],
+                 "real_agrees": bool(preal[0] and preal[3] == "ALL_COMPLETED" and prow["n"] - prow["s"] - prow["f"] > 0)}
+    ctx.sample({"policy_completion_row": next((r for r in rows if r["reason"] == "MIN_SUCCESSFUL_REACHED"), rows[-1])})
+    ctx.sample({"policy_completion_probe": probe})
+    _note(ctx, "completion", cfg=cfg, rows=len(rows), mismatches=mism, known_deviation_rows=known, probe=probe,
+          clauses=["ReasonConsistent", "DecisionImpliesClassifier", "ClassifierImpliesDecision", "ReasonClausesAlways",
+                   "AllFinishedDecides", "DecisionMonotone"], wall_s=round(time.time() - t0, 2))
+
+
+# ---- (2)/(3) retry and wait strategies ---------------------------------------------------------------------------
+
+PINS = (0.0, 1e-9, 0.5, 1 - 1e-9)
+
+
+@contextlib.contextmanager
+def _pinned_random():
+    """config.py calls random.random(); give the module its own `random` whose value we choose (nothing global changes)."""
+    import aws_durable_execution_sdk_python.config as cfgmod
+    box = {"v": 0.0}
+    orig = cfgmod.random
+    cfgmod.random = types.SimpleNamespace(random=lambda: box["v"])
+    try:
+        yield box
+    finally:
+        cfgmod.random = orig
+
+
+def _rates(rate):
+    num, den = rate
+    out = [num / den]
+    if den == 1:
+        out.append(num)          # the int spelling (RetryPresets use backoff_rate=2)
+    return out
+
+
+def _delay_check(row, pin, delay):
+    """-> None or text: delay within the model's range; exact for NONE; the range ends are attained at the extreme pins"""
+    lo, hi = row["lo"], row["hi"]
+    if not isinstance(delay, int) or isinstance(delay, bool):
+        return f"delay_seconds {delay!r} is not an int"
+    if not (lo <= delay <= hi):
+        return f"delay {delay} outside the model's range [{lo}, {hi}]"
+    if delay < 1 or delay > max(1, row["maxd"]):
+        return f"delay {delay} outside [1, max_delay={row['maxd']}]"
+    if row["jit"] == "NONE" and delay != lo:
+        return f"jitter NONE: delay {delay} != {lo}"
+    if pin == 0.0 and delay != lo:
+        return f"random()=0.0 gives {delay}, the model's lower end is {lo}"
+    if pin == PINS[-1] and delay != hi:
+        return f"random()->1 gives {delay}, the model's upper end is {hi}"
+    return None
+
+
+class _Boom(ValueError):
     pass
+
+
+def _retry_filters(row):
+    """[(retryable_errors, retryable_error_types)] variants for the row's filter"""
+    errs = {"none": [None], "match": [["boom"], [re.compile(r"bo+m h")], ["absent", "boom"]],
+            "nomatch": [["absent"], [re.compile(r"^boom$")], []]}[row["errs"]]
+    typs = {"none": [None], "match": [[ValueError], [KeyError, _Boom]], "nomatch": [[KeyError], [KeyError, OSError]]}[row["types"]]
+    out = [(errs[i % len(errs)], typs[i % len(typs)]) for i in range(max(len(errs), len(typs)))]
+    return out
+
+
+def retry_tables(ctx):
+    t0 = time.time()
+    _rule(ctx, "policy tables: one case = one row of the TLC-enumerated Policy.tla table replayed into the real function")
+    cfgname = "Policy_retry_quick.cfg" if ctx.quick else "Policy_retry.cfg"
+    rows = _run_table(ctx, "retry", cfgname, "Policy.tla retry table (RetryDecision / DelayRange), clauses as invariants")
+    mism = calls = 0
+    with _real_sdk(), _pinned_random() as box:
+        from aws_durable_execution_sdk_python.config import Duration, JitterStrategy
+        from aws_durable_execution_sdk_python.retries import RetryPresets, RetryStrategyConfig, create_retry_strategy
+        err = _Boom("boom happened")
+        for row in rows:
+            key = ("retry", row["ma"], row["n"], row["init"], row["maxd"], tuple(row["rate"]), row["jit"], row["errs"], row["types"])
+            bad = None
+            k = 0
+            for rate in _rates(row["rate"]):
+                for (re_errs, re_types) in _retry_filters(row):
+                    conf = dict(max_attempts=row["ma"], initial_delay=Duration.from_seconds(row["init"]),
+                                max_delay=Duration.from_seconds(row["maxd"]), backoff_rate=rate,
+                                jitter_strategy=JitterStrategy[row["jit"]], retryable_errors=re_errs,
+                                retryable_error_types=re_types)
+                    strat = create_retry_strategy(RetryStrategyConfig(**conf))
+                    for pin in PINS:
+                        box["v"] = pin
+                        k += 1
+                        try:
+                            d = strat(err, row["n"])
+                            got = (d.should_retry, d.delay_seconds)
+                        except Exception as e:  # noqa: BLE001
+                            bad = f"raised {type(e).__name__}: {e}"
+                            break
+                        if got[0] != row["retry"]:
+                            bad = f"should_retry={got[0]} but Policy.tla says {row['retry']}"
+                        elif got[0]:
+                            bad = _delay_check(row, pin, got[1])
+                        if bad:
+                            break
+                    if bad:
+                        bad += f" [backoff_rate={rate!r} retryable_errors={re_errs!r} retryable_error_types=" \
+                               f"{[t.__name__ for t in re_types] if re_types else re_types} random()={pin}]"
+                        break
+                if bad:
+                    break
+            ctx.case(key, n=k)
+            calls += k
+            if bad:
+                mism += 1
+                ctx.violation("policy-model-mismatch",
+                              f"retry strategy: {bad}; max_attempts={row['ma']} attempts_made={row['n']} initial_delay={row['init']} "
+                              f"max_delay={row['maxd']} rate={row['rate']} jitter={row['jit']} filter=({row['errs']},{row['types']}) "
+                              f"model range [{row['lo']},{row['hi']}]",
+                              {"kind": "policy", "table": "retry", "row": row, "detail": bad})
+
+        # packaged presets: delays in [1, max_delay], no retry at / after max_attempts, backoff followed when there is no jitter
+        presets = {"none": (RetryPresets.none, 1, 300, 5, 2, "FULL"), "default": (RetryPresets.default, 6, 60, 5, 2, "FULL"),
+                   "transient": (RetryPresets.transient, 3, 300, 5, 2, "HALF"),
+                   "resource_availability": (RetryPresets.resource_availability, 5, 300, 5, 2, "FULL"),
+                   "critical": (RetryPresets.critical, 10, 60, 1, 1.5, "NONE")}
+        rng = random.Random(ctx.seed)
+        preset_cases = 0
+        for name, (mk, ma, maxd, init, rate, jit) in presets.items():
+            strat = mk()
+            for n in range(1, 13):
+                b = min(init * rate ** (n - 1), maxd)
+                hi = max(1, math.ceil(b))
+                lo = {"NONE": hi, "FULL": 1, "HALF": max(1, math.ceil(b / 2))}[jit]
+                for pin in PINS + tuple(rng.random() for _ in range(4)):
+                    box["v"] = pin
+                    preset_cases += 1
+                    bad = None
+                    try:
+                        d = strat(RuntimeError("any"), n)
+                    except Exception as e:  # noqa: BLE001
+                        bad = f"raised {type(e).__name__}: {e}"
+                    else:
+                        if n >= ma and d.should_retry:
+                            bad = f"retries at attempts_made={n} >= max_attempts={ma}"
+                        elif n < ma and not d.should_retry:
+                            bad = f"declines at attempts_made={n} < max_attempts={ma}"
+                        elif d.should_retry and not (1 <= d.delay_seconds <= maxd):
+                            bad = f"delay {d.delay_seconds} outside [1, {maxd}]"
+                        elif d.should_retry and not (lo <= d.delay_seconds <= hi):
+                            bad = f"delay {d.delay_seconds} does not follow backoff/jitter: expected [{lo}, {hi}]"
+                    ctx.case(("retry-preset", name, n), n=1)
+                    if bad:
+                        ctx.violation("retry-preset-bounds", f"RetryPresets.{name}: {bad} (random()={pin})",
+                                      {"kind": "policy", "table": "retry-preset", "preset": name, "attempts_made": n, "pin": pin})
+                        break
+
+        # large attempt numbers: rate ** (attempts_made - 1) is evaluated in floating point before the min() with max_delay
+        overflow = _overflow_probe(ctx, "retry", lambda **kw: create_retry_strategy(RetryStrategyConfig(**kw)),
+                                   lambda s, n: s(RuntimeError("x"), n), "retry-delay-overflow", box)
+    ctx.sample({"policy_retry_row": next((r for r in rows if r["retry"] and r["jit"] == "HALF" and r["rate"] == [3, 2] and r["n"] == 3
+                                          and r["maxd"] == 300 and r["init"] == 5), rows[-1])})
+    _note(ctx, "retry", cfg=cfgname, rows=len(rows), real_calls=calls, mismatches=mism, preset_cases=preset_cases,
+          pins=list(PINS), overflow_probe=overflow,
+          clauses=["RetryBounded", "RetryFilter", "RetryOtherwise", "DelayWithinBounds", "DelayNoneExact", "BackoffMonotone",
+                   "BackoffFirst"], wall_s=round(time.time() - t0, 2))
+
+
+def _overflow_probe(ctx, what, make, call, sig, box):
+    """A strategy asked about a large attempt number must still answer with a delay <= max_delay (or decline)."""
+    from aws_durable_execution_sdk_python.config import Duration, JitterStrategy
+    out = []
+    reported = False
+    configs = [dict(max_attempts=5000, backoff_rate=2.0, jitter_strategy=JitterStrategy.NONE),
+               dict(max_attempts=5000, backoff_rate=1.5, jitter_strategy=JitterStrategy.FULL),
+               dict(max_attempts=5000, backoff_rate=2, jitter_strategy=JitterStrategy.NONE),
+               dict(max_attempts=5000)]     # every other field at its default
+    for conf in configs:
+        conf = dict(conf, initial_delay=Duration.from_seconds(5), max_delay=Duration.from_seconds(300)) if "backoff_rate" in conf else conf
+        if what == "wait":
+            conf["should_continue_polling"] = lambda st: True
+        strat = make(**conf)
+        box["v"] = 0.5
+        first_bad = None
+        res = None
+        # exponential search for the first attempt number that raises
+        for n in (10, 100, 1000, 1024, 1025, 1751, 1752, 2000, 4999):
+            ctx.case((what + "-large-attempt", str(conf.get("backoff_rate", "default")), n))
+            try:
+                d = call(strat, n)
+                delay = d.delay_seconds
+                if not (1 <= delay <= 300):
+                    first_bad, res = n, f"delay {delay} outside [1, 300]"
+                    break
+            except Exception as e:  # noqa: BLE001
+                first_bad, res = n, f"{type(e).__name__}: {e}"
+                break
+        shown = {k: (v.value if hasattr(v, "value") else (v.to_seconds() if hasattr(v, "to_seconds") else v))
+                 for k, v in conf.items() if k != "should_continue_polling"}
+        out.append({"config": shown, "first_failing_attempts_made": first_bad, "result": res})
+        if first_bad is not None and not reported:
+            reported = True
+            ctx.violation(sig,
+                          f"{what} strategy with {shown} raises/misbehaves at attempts_made={first_bad}: {res} "
+                          f"(expected a delay <= max_delay: the backoff rate ** (attempts_made - 1) is computed in floating point "
+                          f"before it is capped)",
+                          {"kind": "policy", "table": what + "-large-attempt", "config": shown, "attempts_made": first_bad,
+                           "result": res})
+    return out
+
+
+def wait_tables(ctx):
+    t0 = time.time()
+    _rule(ctx, "policy tables: one case = one row of the TLC-enumerated Policy.tla table replayed into the real function")
+    rows = _run_table(ctx, "wait", "Policy_wait.cfg", "Policy.tla wait table (WaitDecision / DelayRange), clauses as invariants")
+    mism = calls = 0
+    truthy = {True: [True, 1, "go", [0]], False: [False, 0, "", None, []]}
+    with _real_sdk(), _pinned_random() as box:
+        from aws_durable_execution_sdk_python.config import Duration, JitterStrategy
+        from aws_durable_execution_sdk_python.waits import WaitStrategyConfig, create_wait_strategy
+        for row in rows:
+            key = ("wait", row["ma"], row["n"], row["init"], row["maxd"], tuple(row["rate"]), row["jit"], row["pred"])
+            bad = None
+            k = 0
+            seen_states = []
+            for rate in _rates(row["rate"]):
+                for pv in truthy[row["pred"]][: (2 if ctx.quick else 9)]:
+                    strat = create_wait_strategy(WaitStrategyConfig(
+                        should_continue_polling=lambda st, pv=pv: (seen_states.append(st), pv)[1],
+                        max_attempts=row["ma"], initial_delay=Duration.from_seconds(row["init"]),
+                        max_delay=Duration.from_seconds(row["maxd"]), backoff_rate=rate, jitter_strategy=JitterStrategy[row["jit"]]))
+                    for pin in PINS:
+                        box["v"] = pin
+                        k += 1
+                        state = {"poll": k}
+                        try:
+                            d = strat(state, row["n"])
+                            got = (d.should_wait, d.delay_seconds)
+                        except Exception as e:  # noqa: BLE001
+                            bad = f"raised {type(e).__name__}: {e}"
+                            break
+                        if seen_states[-1:] != [state]:
+                            bad = "the predicate was not consulted with the state passed to the strategy"
+                        elif got[0] != row["wait"]:
+                            bad = f"should_wait={got[0]} but Policy.tla says {row['wait']}"
+                        elif got[0]:
+                            bad = _delay_check(row, pin, got[1])
+                        if bad:
+                            break
+                    if bad:
+                        bad += f" [backoff_rate={rate!r} predicate returns {pv!r} random()={pin}]"
+                        break
+                if bad:
+                    break
+            ctx.case(key, n=k)
+            calls += k
+            if bad:
+                mism += 1
+                ctx.violation("policy-model-mismatch",
+                              f"wait strategy: {bad}; max_attempts={row['ma']} attempts_made={row['n']} initial_delay={row['init']} "
+                              f"max_delay={row['maxd']} rate={row['rate']} jitter={row['jit']} predicate={row['pred']} "
+                              f"model range [{row['lo']},{row['hi']}]",
+                              {"kind": "policy", "table": "wait", "row": row, "detail": bad})
+        overflow = _overflow_probe(ctx, "wait", lambda **kw: create_wait_strategy(WaitStrategyConfig(**kw)),
+                                   lambda s, n: s({"st": 1}, n), "wait-delay-overflow", box)
+    ctx.sample({"policy_wait_row": next((r for r in rows if r["wait"] and r["jit"] == "FULL" and r["rate"] == [2, 1] and r["n"] == 3
+                                         and r["maxd"] == 10 and r["init"] == 5), rows[-1])})
+    _note(ctx, "wait", cfg="Policy_wait.cfg", rows=len(rows), real_calls=calls, mismatches=mism, pins=list(PINS),
+          overflow_probe=overflow,
+          clauses=["WaitStopsOnPredicate", "WaitBounded", "WaitOtherwise", "DelayWithinBounds", "DelayNoneExact", "BackoffMonotone",
+                   "BackoffFirst"], wall_s=round(time.time() - t0, 2))
+
+
+# ---- (4) wrapper ---------------------------------------------------------------------------------------------
+
+class _FakeBotoError(Exception):
+    """what botocore's ClientError looks like to from_exception: str() and .response"""
+
+    def __init__(self, text, response=None, has_response=True):
+        super().__init__(text)
+        if has_response:
+            self.response = response
+
+
+def _classify_variants(row):
+    """[(description, exception)] : spellings of the same abstract row"""
+    status = _none(row["status"])
+    metas = [{"HTTPStatusCode": status, "RequestId": "r"}] if status is not None else [None, {"HTTPStatusCode": None}, {}, "absent"]
+    tok = ["Invalid Checkpoint Token: x", "Invalid Checkpoint Token"]
+    if row["err"]:
+        codes = {"None": [("k", None), ("absent", None)], "Other": [("k", "Other"), ("k", "ThrottlingException")]}.get(
+            row["code"], [("k", row["code"])])
+        msgs = {"None": [("k", None), ("absent", None)], "other": [("k", "other"), ("k", " Invalid Checkpoint Token"), ("k", "")],
+                "token": [("k", t) for t in tok]}[row["msg"]]
+        errs = []
+        for ck, cv in codes:
+            for mk, mv in msgs:
+                e = {"pad": 1}       # an Error structure is truthy even when Code and Message are missing
+                if ck == "k":
+                    e["Code"] = cv
+                if mk == "k":
+                    e["Message"] = mv
+                errs.append(e)
+    else:
+        errs = ["absent", None, {}]
+    out = []
+    for m in metas:
+        for e in errs:
+            resp = {}
+            if m != "absent":
+                resp["ResponseMetadata"] = m
+            if e != "absent":
+                resp["Error"] = e
+            out.append((f"response={resp}", _FakeBotoError("An error occurred", resp)))
+    if status is None and not row["err"]:
+        out.append(("no .response attribute", _FakeBotoError("plain", has_response=False)))
+        out.append(("response={}", _FakeBotoError("plain", {})))
+    return out
+
+
+def _classification_table(ctx):
+    rows = _run_table(ctx, "classify", "Policy_classify.cfg",
+                      "Policy.tla checkpoint error classification table (ClassifyCheckpointError), clauses as invariants")
+    from aws_durable_execution_sdk_python.exceptions import CheckpointError
+    mism = calls = 0
+    for row in rows:
+        key = ("classify", row["status"], row["err"], row["code"], row["msg"])
+        vs = _classify_variants(row)
+        ctx.case(key, n=len(vs))
+        calls += len(vs)
+        for desc, exc in vs:
+            try:
+                ce = CheckpointError.from_exception(exc)
+                got = (type(ce).__name__, ce.error_category.value, bool(ce.is_retriable()), str(ce))
+            except Exception as e:  # noqa: BLE001
+                got = ("raised", type(e).__name__, str(e)[:80], "")
+            want = ("CheckpointError", row["category"], row["retriable"], str(exc))
+            if got != want:
+                mism += 1
+                ctx.violation("classification-mismatch",
+                              f"CheckpointError.from_exception({desc}) -> {got[:3]} but Policy.tla says "
+                              f"({row['category']}, retriable={row['retriable']}) for status={_none(row['status'])} error={row['err']} "
+                              f"code={row['code']} message={row['msg']}",
+                              {"kind": "policy", "table": "classify", "row": row, "variant": desc, "real": list(got)})
+                break
+    return rows, calls, mism
+
+
+class _FakeClient:
+    """minimal in-memory DurableServiceClient; `fail_step` / `fail_exec`: exception to raise when a batch carries a STEP /
+    EXECUTION update"""
+
+    def __init__(self, fail_step=None, fail_exec=None):
+        self.fail_step, self.fail_exec = fail_step, fail_exec
+        self.calls = []
+        self.n = 0
+
+    def checkpoint(self, durable_execution_arn, checkpoint_token, updates, client_token):
+        from aws_durable_execution_sdk_python.lambda_service import (CheckpointOutput, CheckpointUpdatedExecutionState,
+                                                                     OperationType)
+        kinds = [(u.operation_type, u.action, u.payload) for u in updates]
+        self.calls.append(kinds)
+        if self.fail_step is not None and any(k[0] is OperationType.STEP for k in kinds):
+            raise self.fail_step
+        if self.fail_exec is not None and any(k[0] is OperationType.EXECUTION for k in kinds):
+            raise self.fail_exec
+        self.n += 1
+        return CheckpointOutput(checkpoint_token=f"tok{self.n}", new_execution_state=CheckpointUpdatedExecutionState())
+
+    def get_execution_state(self, durable_execution_arn, checkpoint_token, next_marker, max_items=1000):
+        from aws_durable_execution_sdk_python.lambda_service import StateOutput
+        return StateOutput()
+
+    def execution_updates(self):
+        from aws_durable_execution_sdk_python.lambda_service import OperationType
+        return [k for c in self.calls for k in c if k[0] is OperationType.EXECUTION]
+
+
+class _LambdaCtx:
+    aws_request_id = "req"
+    log_group_name = None
+    log_stream_name = None
+    function_name = "f"
+    memory_limit_in_mb = "128"
+    function_version = "1"
+    invoked_function_arn = "arn:aws:lambda:us-east-1:1:function:f"
+    tenant_id = None
+    client_context = None
+    identity = None
+
+    def get_remaining_time_in_millis(self):
+        return 100000
+
+    def log(self, msg):
+        pass
+
+
+# payloads the wrapper's own guard (KeyError / TypeError / AttributeError -> ExecutionError "Unexpected payload") covers
+MALFORMED_EVENTS = [{}, {"DurableExecutionArn": "a"}, {"CheckpointToken": "t"}, None, "text", 7, [],
+                    {"DurableExecutionArn": "a", "CheckpointToken": "t", "InitialExecutionState": "notadict"},
+                    {"DurableExecutionArn": "a", "CheckpointToken": "t", "InitialExecutionState": {"Operations": [5]}}]
+# malformed in a way the guard does not cover (an operation without Type: ValueError from the enum); a raise is what the
+# property allows for a malformed payload, so this is recorded as an observation, not compared with the model's class
+MALFORMED_UNGUARDED = [{"DurableExecutionArn": "a", "CheckpointToken": "t", "InitialExecutionState": {"Operations": [{"bad": 1}]}},
+                       {"DurableExecutionArn": "a", "CheckpointToken": "t",
+                        "InitialExecutionState": {"Operations": [{"Id": "e", "Type": "EXECUTION", "Status": "nope"}]}}]
+
+
+def _wrapper_cell(cause, fault, big):
+    """Build and run the real wrapper for one cell -> dict(kind, out / exc, client, value, threads)"""
+    from aws_durable_execution_sdk_python import exceptions as X
+    from aws_durable_execution_sdk_python.execution import (DurableExecutionInvocationInputWithClient, InitialExecutionState,
+                                                            durable_execution)
+    from aws_durable_execution_sdk_python.lambda_service import ExecutionDetails, Operation, OperationStatus, OperationType
+
+    def ck(cat):
+        return X.CheckpointError("checkpoint rejected", getattr(X.CheckpointErrorCategory, cat))
+
+    value = {"ok": [1, "a", None]}
+    if cause == "ret_large":
+        value = big
+    fail_step = {"bte_retriable": ck("EXECUTION"), "bte_nonretriable": ck("INVOCATION"),
+                 "bte_other": RuntimeError("socket closed")}.get(cause)
+    fail_exec = {"ckpt_retriable": ck("EXECUTION"), "ckpt_nonretriable": ck("INVOCATION")}.get(fault)
+    client = _FakeClient(fail_step, fail_exec)
+
+    def handler(event, dctx):
+        if cause in ("ret_small", "ret_large"):
+            return value
+        if cause == "ret_nonjson":
+            return {"x": object()}
+        if cause == "raise_small":
+            raise ValueError("user failure")
+        if cause == "raise_large":
+            raise ValueError(big)
+        if cause == "raise_execerr":
+            raise X.ExecutionError("fatal")
+        if cause == "raise_callbackerr":
+            raise X.CallbackError("cb", "id1")
+        if cause == "raise_invocation":
+            raise X.StepInterruptedError("interrupted", "s1")
+        if cause == "suspend":
+            raise X.SuspendExecution("wait")
+        if cause == "timed_suspend":
+            raise X.TimedSuspendExecution.from_delay("wait", 5)
+        if cause == "raise_ckpt_retriable":
+            raise ck("EXECUTION")
+        if cause == "raise_ckpt_nonretriable":
+            raise ck("INVOCATION")
+        if cause.startswith("bte_"):
+            dctx.step(lambda sc: 1, name="s")
+            return "unreachable"
+        raise AssertionError(cause)
+
+    wrapped = durable_execution(handler)
+    if cause == "malformed":
+        events = MALFORMED_EVENTS + (MALFORMED_UNGUARDED if fault == "none" else [])
+    else:
+        op = Operation(operation_id="exec1", operation_type=OperationType.EXECUTION, status=OperationStatus.STARTED,
+                       execution_details=ExecutionDetails(input_payload='{"k": 1}'))
+        events = [DurableExecutionInvocationInputWithClient(
+            durable_execution_arn="arn:aws:lambda:us-east-1:1:function:f:1/durable-execution/e1", checkpoint_token="tok0",
+            initial_execution_state=InitialExecutionState(operations=[op], next_marker=""), service_client=client)]
+    results = []
+    for ev in events:
+        box = {}
+
+        def run(ev=ev, box=box):
+            try:
+                box["ret"] = wrapped(ev, _LambdaCtx())
+            except BaseException as e:  # noqa: BLE001
+                box["exc"] = e
+        th = threading.Thread(target=run, name="policy-wrapper-cell", daemon=True)
+        th.start()
+        th.join(30)
+        if th.is_alive():
+            box["hang"] = True
+        box["threads"] = [t.name for t in threading.enumerate() if t.name.startswith("dex-handler") and t.is_alive()]
+        box["event"] = ev if cause == "malformed" else "injected-client"
+        box["unguarded"] = cause == "malformed" and any(ev is u for u in MALFORMED_UNGUARDED)
+        results.append(box)
+    return results, client, value
+
+
+ERROR_KEYS = {"ErrorMessage", "ErrorType", "ErrorData", "StackTrace"}
+
+
+def _wrapper_compare(row, box, client, value, limit):
+    """-> None or text describing how the real outcome differs from the model's cell / is malformed"""
+    from aws_durable_execution_sdk_python import exceptions as X
+    if box.get("hang"):
+        return "the wrapper did not return within 30 s"
+    if box["threads"]:
+        return f"threads {box['threads']} still alive after the wrapper finished"
+    if "exc" in box:
+        e = box["exc"]
+        if row["kind"] != "raise":
+            return f"raised {type(e).__name__}: {str(e)[:80]} but the model says return {row['status']}"
+        if box.get("unguarded"):
+            return None
+        if type(e).__name__ != row["exc"]:
+            return f"raised {type(e).__name__}: {str(e)[:80]} but the model says raise {row['exc']}"
+        why = row["why"]
+        if why == "checkpoint_retriable" and not (isinstance(e, X.CheckpointError) and e.is_retriable()):
+            return "raised a CheckpointError that is not retriable"
+        if why == "invocation" and not isinstance(e, X.InvocationError):
+            return "raised a non-InvocationError"
+        if why == "payload" and not (isinstance(e, X.ExecutionError) and "Unexpected payload" in str(e)):
+            return f"malformed payload raised {type(e).__name__}: {str(e)[:60]}"
+        if why == "bg_source" and isinstance(e, (X.CheckpointError, X.BackgroundThreadError)):
+            return "background failure re-raised as the wrong object"
+        return None
+    out = box.get("ret")
+    if row["kind"] != "return":
+        return f"returned {str(out)[:100]} but the model says raise {row['exc']}"
+    if type(out) is not dict or out.get("Status") not in ("SUCCEEDED", "FAILED", "PENDING"):
+        return f"malformed output {str(out)[:100]}"
+    st = out["Status"]
+    keys = set(out) - {"Status"}
+    if st != row["status"]:
+        return f"Status {st} but the model says {row['status']}"
+    want_keys = set()
+    if row["result"] in ("json", "empty"):
+        want_keys.add("Result")
+    if row["error"] == "present":
+        want_keys.add("Error")
+    if keys != want_keys:
+        return f"{st} with keys {sorted(keys)} but the model says {sorted(want_keys)}"
+    if "Result" in out:
+        r = out["Result"]
+        if not isinstance(r, str):
+            return f"Result is {type(r).__name__}, not a JSON string"
+        if row["result"] == "empty":
+            if r != "":
+                return "large result: Result should be empty (already checkpointed)"
+            ups = client.execution_updates()
+            if len(ups) != 1 or ups[0][1].value != "SUCCEED" or ups[0][2] != json.dumps(value):
+                return f"large result: expected exactly one EXECUTION SUCCEED update carrying the result, saw {[(u[0].value, u[1].value, len(u[2] or '')) for u in ups]}"
+        else:
+            try:
+                if json.loads(r) != value or r != json.dumps(value):
+                    return f"Result {r[:60]} is not the JSON of the handler's value"
+            except ValueError:
+                return f"Result {r[:60]} is not JSON"
+    if "Error" in out:
+        er = out["Error"]
+        if type(er) is not dict or set(er) - ERROR_KEYS or not isinstance(er.get("ErrorType"), str) \
+                or not isinstance(er.get("ErrorMessage"), str):
+            return f"Error object malformed: {str(er)[:100]}"
+        want_type = {"ret_nonjson": "TypeError", "raise_small": "ValueError", "raise_execerr": "ExecutionError",
+                     "raise_callbackerr": "CallbackError"}.get(row["cause"], "CheckpointError")
+        if er["ErrorType"] != want_type:
+            return f"ErrorType {er['ErrorType']} but expected {want_type}"
+    if st == "FAILED" and row["error"] == "absent":
+        ups = client.execution_updates()
+        if len(ups) != 1 or ups[0][1].value != "FAIL":
+            return "large failure: expected exactly one EXECUTION FAIL update before returning FAILED without Error"
+    try:
+        size = len(json.dumps(out))
+    except (TypeError, ValueError) as e:
+        return f"output is not JSON-serializable: {e}"
+    if size > limit:
+        return f"output of {size} bytes exceeds the response limit"
+    return None
+
+
+def _mro_drift(rows):
+    """The model's class hierarchy (Ancestors) drives which except clause fires: compare the clause chosen by the real MRO."""
+    from aws_durable_execution_sdk_python import exceptions as X
+    chain = [X.BackgroundThreadError, X.SuspendExecution, X.CheckpointError, X.InvocationError, X.ExecutionError, Exception]
+    expect = {"ValueError": "Exception", "TypeError": "Exception", "RuntimeError": "Exception", "ExecutionError": "ExecutionError",
+              "CallbackError": "ExecutionError", "StepInterruptedError": "InvocationError", "CheckpointError": "CheckpointError",
+              "SuspendExecution": "SuspendExecution", "TimedSuspendExecution": "SuspendExecution",
+              "BackgroundThreadError": "BackgroundThreadError"}
+    bad = []
+    for name, clause in expect.items():
+        cls = getattr(X, name, None) or getattr(__import__("builtins"), name)
+        real = next((c.__name__ for c in chain if issubclass(cls, c)), "propagate")
+        if real != clause:
+            bad.append((name, clause, real))
+    return bad
+
+
+def wrapper_tables(ctx):
+    t0 = time.time()
+    _rule(ctx, "policy tables: one case = one row of the TLC-enumerated Policy.tla table replayed into the real function")
+    with _real_sdk():
+        crow, ccalls, cmism = _classification_table(ctx)
+        t1 = time.time()
+        rows = _run_table(ctx, "wrapper", "Policy_wrapper.cfg",
+                          "Policy.tla wrapper outcome table (WrapperOutcome = except chain x large-result checkpoint fault), clauses as invariants")
+        from aws_durable_execution_sdk_python.execution import LAMBDA_RESPONSE_SIZE_LIMIT
+        big = "a" * (LAMBDA_RESPONSE_SIZE_LIMIT + 10)
+        mism = runs = replayed = 0
+        unguarded = []
+        for name, clause, real in _mro_drift(rows):
+            mism += 1
+            ctx.violation("wrapper-outcome-mismatch",
+                          f"class hierarchy drift: {name} is caught by `except {real}` in the real chain, the model says `except {clause}`",
+                          {"kind": "policy", "table": "wrapper", "class": name})
+        for row in rows:
+            # quick tier: the fault is inert outside the two large-payload causes (invariant FaultInert), replay those cells once
+            if ctx.quick and row["fault"] != "none" and row["cause"] not in ("ret_large", "raise_large"):
+                continue
+            replayed += 1
+            results, client, value = _wrapper_cell(row["cause"], row["fault"], big)
+            ctx.case(("wrapper", row["cause"], row["fault"]), n=len(results))
+            runs += len(results)
+            for box in results:
+                if box.get("unguarded"):
+                    unguarded.append({"event": repr(box["event"])[:160],
+                                      "outcome": (f"raise {type(box['exc']).__name__}: {str(box['exc'])[:60]}" if "exc" in box
+                                                  else f"return {str(box.get('ret'))[:80]}")})
+                bad = _wrapper_compare(row, box, client, value, LAMBDA_RESPONSE_SIZE_LIMIT)
+                if bad:
+                    mism += 1
+                    want = (f"raise {row['exc']} ({row['why']})" if row["kind"] == "raise"
+                            else f"{row['status']} result={row['result']} error={row['error']}")
+                    ctx.violation("wrapper-outcome-mismatch",
+                                  f"wrapper cell cause={row['cause']} fault={row['fault']}: {bad}; Policy.tla WrapperOutcome = {want}"
+                                  + (f"; event={box['event']!r}" if row["cause"] == "malformed" else ""),
+                                  {"kind": "policy", "table": "wrapper", "row": row, "detail": bad, "event": repr(box["event"])[:200]})
+                    break
+    ctx.sample({"policy_classify_row": crow[len(crow) // 2]})
+    ctx.sample({"policy_wrapper_row": next(r for r in rows if r["cause"] == "ret_large" and r["fault"] == "ckpt_retriable")})
+    _note(ctx, "classify", cfg="Policy_classify.cfg", rows=len(crow), real_calls=ccalls, mismatches=cmism,
+          clauses=["Class5xx", "ClassThrottle", "ClassNoStatus", "ClassBadToken", "Class4xx"],
+          remark="a 4xx response without an Error structure is classified INVOCATION (not retried); Class4xx is stated with that guard",
+          wall_s=round(t1 - t0, 2))
+    _note(ctx, "wrapper", cfg="Policy_wrapper.cfg", rows=len(rows), rows_replayed=replayed, real_wrapper_runs=runs, mismatches=mism,
+          malformed_payloads_outside_the_guard=unguarded,
+          clauses=["RaisesOnlyRetryWorthy", "WellFormedReturn", "UserErrorsFail", "NonRetriableFails", "RetriableRaises",
+                   "SuspendIsPending", "FaultNeverSucceeds", "FaultInert"], wall_s=round(time.time() - t1, 2))
